@@ -168,7 +168,7 @@ pub fn gen(seed: u64, n: usize, _tier: &str) -> Vec<Case> {
     cases
 }
 
-/// the witness of the class stolen-wakeup-overtakes (repaired 04ed30d; Props/C13.v c13_fifo_overtake_fixed), kept
+/// the witness of the class stolen-wakeup-overtakes (repaired e464ce3; Props/C13.v c13_fifo_overtake_fixed), kept
 /// as a regression case: client 2 blocks on r, then client 1 on q and r; one batch pushes to q, pops q and
 /// pushes y to r; client 1's wake-up finds q empty.  It used to look at its other key and take y although
 /// client 2 blocked on r first; now it pops nothing, client 2 is served [r, y] by its own wake-up and client 1
